@@ -92,13 +92,16 @@ Proof. exists [W (s "$"); W (s "{")]. vm_compute. auto. Qed.
 Lemma template_roundtrip_full_refuted : ~ template_roundtrip_full.
 Proof. intro H. specialize (H [W (s "$"); W (s "{")]). vm_compute in H. discriminate. Qed.
 
-(** ** refutations: extensions printed with an empty body (the grammar wants at least one root
-    operation between the braces / at least one member after the equals sign; nitrogql's parser
-    rejects both texts: corpus cases of the harness) *)
+(** ** extensions with directives only.  A schema extension without root operations is printed
+    without braces since /repo 6472a53 (it used to be printed with an empty brace pair, which does
+    not parse); the text below is accepted by the parser and re-parses to the same document (corpus
+    case of the harness).  A union extension without members is still printed with a dangling
+    equals sign (pinned by the parser's union_definition snapshot): the grammar wants at least one
+    member after it, nitrogql's parser rejects the text. *)
 Definition dir_a : directive := mkDir pos0 (mkId (s "a") pos0) None.
-Lemma extend_schema_refuted :
+Lemma extend_schema_directives_only :
   just_run (print_tsdoc_ext [TSSchemaExt (mkSchemaExt pos0 [dir_a] [])])
-  = s "extend schema @a{" ++ [LF] ++ s "}" ++ [LF; LF].
+  = s "extend schema @a" ++ [LF; LF].
 Proof. vm_compute. reflexivity. Qed.
 Lemma extend_union_refuted :
   just_run (print_tsdoc_ext [TSTypeExt (TEUnion pos0 (mkId (s "U") pos0) [dir_a] [])])
